@@ -282,6 +282,12 @@ func descendsFrom(v ssa.Value, fn *ssa.Function) (root ssa.Value, steps int, ok 
 			}
 			return r0, best, true
 		case *ssa.Call:
+			// a list gathered from descending pieces: append(acc, piece...) where acc
+			// starts empty and only ever receives such pieces (the statements of all
+			// choices of an alternative)
+			if b, ok := x.Call.Value.(*ssa.Builtin); ok && b.Name() == "append" && len(x.Call.Args) == 2 && isGatherAccumulator(x.Call.Args[0], 0, map[ssa.Value]bool{}) {
+				return rec(x.Call.Args[1], n, d+1)
+			}
 			// accessor on a tree node: a method whose only tree-typed operand is
 			// its receiver (protobuf GetX, ANTLR context accessors, GetChild(i))
 			if sc := x.Call.StaticCallee(); sc != nil && sc.Signature.Recv() != nil && len(x.Call.Args) >= 1 && isAccessor(sc.Object(), x.Call.Args[1:]) {
@@ -404,6 +410,24 @@ type guardRow struct {
 	Func      string `json:"func,omitempty"`      // function holding the guarded recursive call
 	Container string `json:"container,omitempty"` // substring of the type or field name of the visited container
 	Release   bool   `json:"release,omitempty"`   // a release (delete/decrement) must follow the recursive call
+	// set while a method of the container's own type is judged: the container is
+	// whatever map hangs off this receiver
+	viaRecv *ssa.Parameter
+}
+
+// recvRow: when the call's receiver is the visited container itself (a type of
+// this repository wrapping the map), the row to judge the method h with.
+func recvRow(h *ssa.Function, cl ssa.CallInstruction, row *guardRow) *guardRow {
+	if h == nil || h.Signature.Recv() == nil || len(h.Params) == 0 || row.viaRecv != nil {
+		return row
+	}
+	args := cl.Common().Args
+	if len(args) == 0 || !containerMatches(args[0], row) {
+		return row
+	}
+	r := *row
+	r.viaRecv = h.Params[0]
+	return &r
 }
 
 func loadGuards() ([]guardRow, error) {
@@ -628,6 +652,12 @@ func checkGuardRow(c *Check, rule, key, pos string, comp []*ssa.Function, in map
 						break
 					}
 				}
+				if !ok2 {
+					// the guard spread over the steps the function was split into
+					if ok3, why3 := chainGuarded(p, gf, call, row, in, g); ok3 {
+						ok2, why = true, why3
+					}
+				}
 				if !ok2 && !row.Release {
 					// test and insertion moved into a helper
 					if ok3, why3 := helperGuarded(p, gf, call); ok3 {
@@ -652,6 +682,38 @@ func checkGuardRow(c *Check, rule, key, pos string, comp []*ssa.Function, in map
 // container named by the row (substring of field name or type string).
 func containerMatches(v ssa.Value, row *guardRow) bool {
 	if v == nil {
+		return false
+	}
+	if row.viaRecv != nil {
+		for r := v; r != nil; {
+			switch x := r.(type) {
+			case *ssa.Parameter:
+				return x == row.viaRecv
+			case *ssa.UnOp:
+				r = x.X
+			case *ssa.Field:
+				r = x.X
+			case *ssa.FieldAddr:
+				r = x.X
+			case *ssa.Alloc:
+				// the spilled receiver
+				r = nil
+				n := 0
+				if x.Referrers() != nil {
+					for _, ref := range *x.Referrers() {
+						if st, ok := ref.(*ssa.Store); ok && st.Addr == ssa.Value(x) {
+							r = st.Val
+							n++
+						}
+					}
+				}
+				if n != 1 {
+					r = nil
+				}
+			default:
+				r = nil
+			}
+		}
 		return false
 	}
 	if _, fld, _, ok := loadedField(v); ok && fld == row.Container {
@@ -751,6 +813,23 @@ func containerCall(ins ssa.Instruction, row *guardRow, names ...string) (ssa.Cal
 }
 
 func visitedGuarded(f *ssa.Function, call ssa.Instruction, row *guardRow) (bool, string) {
+	ok, why, _, _, _ := visitedGuardedX(f, call, row, 0, false)
+	return ok, why
+}
+
+// visitedGuardedX: mode 0 judges the whole guard in f. Mode 1 judges the part
+// of a guard that f holds when the guard is spread over a chain of steps: it
+// reports whether f tests (and how) and whether it inserts, and checks the
+// release only where the insertion is; presenceIn is how an earlier step tested.
+func visitedGuardedX(f *ssa.Function, call ssa.Instruction, row *guardRow, mode int, presenceIn bool) (bool, string, bool, bool, bool) {
+	ok, why, tested, byPresence, hasInsert := visitedGuardedImpl(f, call, row, mode, presenceIn)
+	return ok, why, tested, byPresence, hasInsert
+}
+
+func visitedGuardedImpl(f *ssa.Function, call ssa.Instruction, row *guardRow, mode int, presenceIn bool) (res bool, reason string, testedOut, presenceOut, insertOut bool) {
+	fail := func(why string) (bool, string, bool, bool, bool) {
+		return false, why, testedOut, presenceOut, insertOut
+	}
 	// (ii) insertion: MapUpdate on container, store of append to it, or Insert/Add method
 	var insert ssa.Instruction
 	eachInstr(f, func(_ *ssa.BasicBlock, i ssa.Instruction) {
@@ -771,13 +850,14 @@ func visitedGuarded(f *ssa.Function, call ssa.Instruction, row *guardRow) (bool,
 			if _, ok := containerCall(i, row, "Insert", "Add", "Push"); ok && instrDominates(i, call) {
 				insert = i
 			}
-			if h := guardHelper(x); h != nil && instrDominates(i, call) && helperInserts(h, row) {
+			if h := guardHelper(x); h != nil && instrDominates(i, call) && helperInserts(h, recvRow(h, x, row)) {
 				insert = i
 			}
 		}
 	})
-	if insert == nil {
-		return false, fmt.Sprintf("no insertion into the visited container %q dominates the call", row.Container)
+	insertOut = insert != nil
+	if insert == nil && mode == 0 {
+		return fail(fmt.Sprintf("no insertion into the visited container %q dominates the call", row.Container))
 	}
 	// (i) membership test controlling the call: a Lookup on the container or a Contains/Has method call
 	tested := false
@@ -795,7 +875,7 @@ func visitedGuarded(f *ssa.Function, call ssa.Instruction, row *guardRow) (bool,
 		// a predicate helper: returns the outcome of a look-up in the container
 		if cl, ok := i.(*ssa.Call); ok {
 			if h := guardHelper(cl); h != nil {
-				if isTest, presence := helperTests(h, row); isTest {
+				if isTest, presence := helperTests(h, recvRow(h, cl, row)); isTest {
 					tests = append(tests, cl)
 					helperPresence[cl] = presence
 				}
@@ -853,8 +933,17 @@ func visitedGuarded(f *ssa.Function, call ssa.Instruction, row *guardRow) (bool,
 		}
 	}
 	_ = byValue
-	if !tested {
-		return false, fmt.Sprintf("the call is not control-dependent on a membership test of the visited container %q", row.Container)
+	testedOut, presenceOut = tested, byPresence
+	if mode == 1 {
+		if !tested {
+			byPresence = presenceIn
+			presenceOut = presenceIn
+		}
+		if insert == nil {
+			return true, "", testedOut, presenceOut, false
+		}
+	} else if !tested {
+		return fail(fmt.Sprintf("the call is not control-dependent on a membership test of the visited container %q", row.Container))
 	}
 	if row.Release {
 		rel := func(i ssa.Instruction) bool {
@@ -880,7 +969,7 @@ func visitedGuarded(f *ssa.Function, call ssa.Instruction, row *guardRow) (bool,
 				if _, ok := containerCall(i, row, "Remove", "Delete", "Pop"); ok {
 					return true
 				}
-				if h := guardHelper(x); h != nil && helperReleases(h, row, byPresence) {
+				if h := guardHelper(x); h != nil && helperReleases(h, recvRow(h, x, row), byPresence) {
 					return true
 				}
 			}
@@ -893,7 +982,7 @@ func visitedGuarded(f *ssa.Function, call ssa.Instruction, row *guardRow) (bool,
 				if _, ok := containerCall(d, row, "Remove", "Delete", "Pop"); ok {
 					deferred = true
 				}
-				if h := normFnOf(d.Call.StaticCallee()); h != nil && isRepoFn(h) && len(h.Blocks) > 0 && helperReleases(h, row, byPresence) {
+				if h := normFnOf(d.Call.StaticCallee()); h != nil && isRepoFn(h) && len(h.Blocks) > 0 && helperReleases(h, recvRow(h, d, row), byPresence) {
 					deferred = true
 				}
 			}
@@ -911,11 +1000,58 @@ func visitedGuarded(f *ssa.Function, call ssa.Instruction, row *guardRow) (bool,
 				}
 				return true
 			}, rel); bad {
-				return false, fmt.Sprintf("a success path from the recursive call reaches the return at line %d without releasing the in-progress mark", f.Prog.Fset.Position(ret.Pos()).Line)
+				return fail(fmt.Sprintf("a success path from the recursive call reaches the return at line %d without releasing the in-progress mark", f.Prog.Fset.Position(ret.Pos()).Line))
 			}
 		}
 	}
-	return true, fmt.Sprintf("membership test and insertion on %q precede the call%s", row.Container, map[bool]string{true: "; mark released on all success paths", false: ""}[row.Release])
+	return true, fmt.Sprintf("membership test and insertion on %q precede the call%s", row.Container, map[bool]string{true: "; mark released on all success paths", false: ""}[row.Release]), testedOut, presenceOut, insertOut
+}
+
+// chainGuarded: the guard of the recursive call is spread over a chain of steps
+// f → h1 → h2 …, each called by the one before and by nothing else, each making
+// one call that stays in the cycle: one step's call depends on the membership
+// test, the same or a later step inserts before its call (and releases after it).
+func chainGuarded(p *Program, f *ssa.Function, call ssa.Instruction, row *guardRow, in map[*ssa.Function]bool, g *repoGraph) (bool, string) {
+	tested, presence := false, false
+	cur := f
+	var names []string
+	for step := 0; step < 4; step++ {
+		ok, why, t, pr, ins := visitedGuardedX(cur, call, row, 1, presence)
+		if !ok {
+			return false, why
+		}
+		if t {
+			tested, presence = true, pr
+		}
+		names = append(names, cur.Name())
+		if ins {
+			if !tested {
+				return false, fmt.Sprintf("the insertion in %s is not preceded by a membership test along the chain of steps", cur.Name())
+			}
+			return true, fmt.Sprintf("membership test, insertion%s on %q spread over the steps %s", map[bool]string{true: " and release", false: ""}[row.Release], row.Container, strings.Join(names, " → "))
+		}
+		ci, isCall := call.(ssa.CallInstruction)
+		if !isCall {
+			return false, "the recursive call is not a plain call"
+		}
+		next := staticCallee(ci)
+		if next == nil || !in[next] || p.soleCaller(next) != cur {
+			return false, fmt.Sprintf("no insertion into the visited container %q dominates the call", row.Container)
+		}
+		var calls []ssa.Instruction
+		for _, e := range g.succ[next] {
+			if in[e.To] && e.Site != nil {
+				if _, ok := e.Site.(ssa.CallInstruction); ok {
+					calls = append(calls, e.Site)
+				}
+			}
+		}
+		if len(calls) != 1 {
+			return false, fmt.Sprintf("no insertion into the visited container %q dominates the call", row.Container)
+		}
+		cur, call = next, calls[0]
+	}
+	return false, fmt.Sprintf("no insertion into the visited container %q dominates the call", row.Container)
 }
 
 func hasDelete(f *ssa.Function, row *guardRow) bool {
@@ -1438,4 +1574,35 @@ func helperReleases(h *ssa.Function, row *guardRow, byPresence bool) bool {
 		}
 	})
 	return released
+}
+
+// isGatherAccumulator: v is nil, an empty slice, or a phi / append chain of such
+// values — the running result of a loop that gathers pieces into one list.
+func isGatherAccumulator(v ssa.Value, depth int, seen map[ssa.Value]bool) bool {
+	if v == nil || depth > 8 {
+		return false
+	}
+	if seen[v] {
+		return true
+	}
+	seen[v] = true
+	switch x := v.(type) {
+	case *ssa.Const:
+		return x.Value == nil
+	case *ssa.MakeSlice:
+		k, ok := constInt(x.Len)
+		return ok && k == 0
+	case *ssa.Phi:
+		for _, e := range x.Edges {
+			if !isGatherAccumulator(e, depth+1, seen) {
+				return false
+			}
+		}
+		return true
+	case *ssa.Call:
+		if b, ok := x.Call.Value.(*ssa.Builtin); ok && b.Name() == "append" && len(x.Call.Args) >= 1 {
+			return isGatherAccumulator(x.Call.Args[0], depth+1, seen)
+		}
+	}
+	return false
 }
